@@ -143,6 +143,8 @@ func checkC15(c *Ctx) {
 	ruleSpanScan(c)
 	ruleWSSpecRecognisers(c)
 	ruleMinLen(c, "C15")
+	ruleStartNonBlank(c)
+	rulePrefilter(c)
 	c.MinCount("BSET", len(classifierOracles))
 }
 
@@ -588,7 +590,7 @@ func ruleSpecBoundsFor(c *Ctx, prop string) {
 
 // SPAN-SCAN: a loop that walks a Span walks all of it.
 func ruleSpanScan(c *Ctx) {
-	c.Rule("SPAN-SCAN", "In package commonmark, a counting loop whose upper bound is the End of a Span value starts at that same span's Start (not at Start plus a positive constant): the recognisers use such loops to validate every byte of a range (e.g. 'the info string after a backtick fence may not contain a backtick'), and a scan that starts one byte late accepts a line the specification rejects.")
+	c.Rule("SPAN-SCAN", "In package commonmark, a counting loop whose upper bound is the End of a Span value starts at that same span's Start (not at Start plus a positive constant): the recognisers use such loops to validate every byte of a range (e.g. 'the info string after a backtick fence may not contain a backtick'), and a scan that starts one byte late accepts a line the specification rejects. Likewise a loop that counts down from a span's End-1 and reads the byte at the counter examines the byte at the span's Start before it stops at the start (the test is counter < Start, not counter <= Start).")
 	p := c.P
 	spanField := func(v ssa.Value) (base ssa.Value, field string, ok bool) {
 		switch x := v.(type) {
@@ -661,4 +663,112 @@ func ruleSpanScan(c *Ctx) {
 	if n < 1 {
 		c.Undecided("SPAN-SCAN", "instance-count", token.NoPos, "no loop over a Span found (parseCodeFence's info-string check is one)")
 	}
+	// downward scans: a counter that starts at S.End-1, steps down by one and is compared with S.Start of the same span,
+	// while the loop reads the byte at counter+d: the lowest index read must be S.Start itself
+	nd := 0
+	for _, fn := range p.Funcs {
+		if fn.Pkg != p.CMs {
+			continue
+		}
+		for li, l := range naturalLoops(fn) {
+			for _, in := range l.header.Instrs {
+				ph, ok := in.(*ssa.Phi)
+				if !ok {
+					break
+				}
+				var eb ssa.Value
+				down := false
+				for i, pr := range l.header.Preds {
+					e := ph.Edges[i]
+					if l.body[pr] {
+						if b, k := linTerm(e); b == ssa.Value(ph) && k == -1 {
+							down = true
+						}
+						continue
+					}
+					base, k := linTerm(e)
+					if sb, sf, ok := spanField(base); ok && sf == "End" && k == -1 {
+						eb = sb
+					}
+				}
+				if !down || eb == nil {
+					continue
+				}
+				// the bound test and the reads
+				for b := range l.body {
+					iff := blockIf(b)
+					if iff == nil {
+						continue
+					}
+					bo, ok := iff.Cond.(*ssa.BinOp)
+					if !ok || bo.X != ssa.Value(ph) {
+						continue
+					}
+					sb, sf, ok := spanField(bo.Y)
+					if !ok || sf != "Start" || !sameBase(sb, eb) {
+						continue
+					}
+					strict := bo.Op == token.LEQ || bo.Op == token.GTR
+					if !strict && bo.Op != token.LSS && bo.Op != token.GEQ {
+						continue
+					}
+					// offsets of the reads line[ph+d] in the loop
+					minD, have := int64(0), false
+					for rb := range l.body {
+						for _, x := range rb.Instrs {
+							if ia, ok := x.(*ssa.IndexAddr); ok {
+								if base, d := linTerm(ia.Index); base == ssa.Value(ph) {
+									if !have || d < minD {
+										minD, have = d, true
+									}
+								}
+							}
+						}
+					}
+					if !have {
+						continue
+					}
+					nd++
+					lowest := minD
+					if strict {
+						lowest++
+					}
+					key := fmt.Sprintf("%s:down-loop#%d", shortFuncName(fn), li+1)
+					c.Check(lowest <= 0, "SPAN-SCAN", key, bo.Pos(), fmt.Sprintf("the scan runs down from the span's End-1 and stops once the counter is no longer above the span's Start: the lowest byte it examines is Start+%d, so the first byte of the span is never looked at before the scan concludes that it reached the start", lowest))
+				}
+			}
+		}
+	}
+	c.Analysed["span_scans_downward"] = nd
+}
+
+// linTerm splits v into base + k for additions and subtractions of integer constants (either sign).
+func linTerm(v ssa.Value) (ssa.Value, int64) {
+	if bo, ok := v.(*ssa.BinOp); ok {
+		switch bo.Op {
+		case token.ADD:
+			if k, ok := constInt(bo.Y); ok {
+				b, k2 := linTerm(bo.X)
+				return b, k + k2
+			}
+			if k, ok := constInt(bo.X); ok {
+				b, k2 := linTerm(bo.Y)
+				return b, k + k2
+			}
+		case token.SUB:
+			if k, ok := constInt(bo.Y); ok {
+				b, k2 := linTerm(bo.X)
+				return b, k2 - k
+			}
+		}
+	}
+	return v, 0
+}
+
+func init() {
+	addControls(
+		Control{Name: "atx-closing-hash-scan-stops-before-first-byte", Props: []string{"C15", "C06", "C03"}, File: "blocks.go",
+			Old: "\t\tif i < h.content.Start {\n\t\t\th.content.End = h.content.Start\n\t\t\tbreak\n\t\t}", New: "\t\tif i <= h.content.Start {\n\t\t\th.content.End = h.content.Start\n\t\t\tbreak\n\t\t}", Expect: "SPAN-SCAN/parseATXHeading:down-loop",
+			Why: "the defect repaired by /repo 32a7929: '# b##' gave an empty heading"},
+	)
 }
